@@ -113,3 +113,70 @@ package internal
 // helper analysed in the context of its callers (no secret clause of its own)
 //@ func (*sm2/internal.SM2Point).bytes#ct
 //@ declassify p.z.IsZero() == 1 : point-at-infinity verdict (the encoding of infinity has a different length anyway)
+
+// ---------------------------------------------------------------------------------------------
+// Ring-mode contracts (property C15): the straight-line bodies of the point operations against the
+// closed-form complete addition law of Renes, Costello, Batina (eprint 2015/1060, section 3, a = -3)
+// as polynomials in the projective input coordinates, over Z/P; every aliasing pattern of receiver
+// and arguments. Checked by `govc ring` (normal-form polynomial identity mod P); the meaning of each
+// fiat call is taken from its verified contract (fv(e) == ... mod P).
+// ---------------------------------------------------------------------------------------------
+
+//@ func (*sm2/internal.SM2Point).Add#ring
+//@ ring_mod 0xfffffffeffffffffffffffffffffffffffffffff00000000ffffffffffffffff
+//@ ring_const sm2B = B
+//@ ring_in p1.x = X1, p1.y = Y1, p1.z = Z1, p2.x = X2, p2.y = Y2, p2.z = Z2
+//@ ring_out q.x == (X1*Y2 + X2*Y1)*(Y1*Y2 + 3*(X1*Z2 + X2*Z1) - 3*B*Z1*Z2) - (Y1*Z2 + Y2*Z1)*(3*B*(X1*Z2 + X2*Z1) - 3*X1*X2 - 9*Z1*Z2)
+//@ ring_out q.y == (3*X1*X2 - 3*Z1*Z2)*(3*B*(X1*Z2 + X2*Z1) - 3*X1*X2 - 9*Z1*Z2) + (Y1*Y2 - 3*(X1*Z2 + X2*Z1) + 3*B*Z1*Z2)*(Y1*Y2 + 3*(X1*Z2 + X2*Z1) - 3*B*Z1*Z2)
+//@ ring_out q.z == (Y1*Z2 + Y2*Z1)*(Y1*Y2 - 3*(X1*Z2 + X2*Z1) + 3*B*Z1*Z2) + (X1*Y2 + X2*Y1)*(3*X1*X2 - 3*Z1*Z2)
+//@ ring_alias q=p1 | q=p2 | p2=p1 | q=p1,p2=p1
+
+// Double(p) is the same law at p1 = p2 = p, modulo the (homogeneous) curve equation Y^2 Z = X^3 - 3 X Z^2 + b Z^3,
+// which every SM2Point satisfies (the dedicated doubling formulas use Z3 = 8 Y^3 Z, equal to the addition law only on the curve).
+//@ func (*sm2/internal.SM2Point).Double#ring
+//@ ring_mod 0xfffffffeffffffffffffffffffffffffffffffff00000000ffffffffffffffff
+//@ ring_const sm2B = B
+//@ ring_in p.x = X1, p.y = Y1, p.z = Z1
+//@ ring_relation Y1*Y1*Z1 = X1*X1*X1 - 3*X1*Z1*Z1 + B*Z1*Z1*Z1
+//@ ring_out q.x == (X1*Y1 + X1*Y1)*(Y1*Y1 + 3*(X1*Z1 + X1*Z1) - 3*B*Z1*Z1) - (Y1*Z1 + Y1*Z1)*(3*B*(X1*Z1 + X1*Z1) - 3*X1*X1 - 9*Z1*Z1)
+//@ ring_out q.y == (3*X1*X1 - 3*Z1*Z1)*(3*B*(X1*Z1 + X1*Z1) - 3*X1*X1 - 9*Z1*Z1) + (Y1*Y1 - 3*(X1*Z1 + X1*Z1) + 3*B*Z1*Z1)*(Y1*Y1 + 3*(X1*Z1 + X1*Z1) - 3*B*Z1*Z1)
+//@ ring_out q.z == (Y1*Z1 + Y1*Z1)*(Y1*Y1 - 3*(X1*Z1 + X1*Z1) + 3*B*Z1*Z1) + (X1*Y1 + X1*Y1)*(3*X1*X1 - 3*Z1*Z1)
+//@ ring_alias q=p
+
+//@ func (*sm2/internal.SM2Point).Negate#ring
+//@ ring_mod 0xfffffffeffffffffffffffffffffffffffffffff00000000ffffffffffffffff
+//@ ring_in p.x = X1, p.y = Y1, p.z = Z1
+//@ ring_out q.x == X1
+//@ ring_out q.y == 0 - Y1
+//@ ring_out q.z == Z1
+//@ ring_alias q=p
+
+//@ func (*sm2/internal.SM2Point).Set#ring
+//@ ring_mod 0xfffffffeffffffffffffffffffffffffffffffff00000000ffffffffffffffff
+//@ ring_in q.x = X1, q.y = Y1, q.z = Z1
+//@ ring_out p.x == X1
+//@ ring_out p.y == Y1
+//@ ring_out p.z == Z1
+//@ ring_alias p=q
+
+//@ func (*sm2/internal.SM2Point).Select#ring
+//@ ring_mod 0xfffffffeffffffffffffffffffffffffffffffff00000000ffffffffffffffff
+//@ ring_in p1.x = X1, p1.y = Y1, p1.z = Z1, p2.x = X2, p2.y = Y2, p2.z = Z2
+//@ ring_cond cond
+//@ ring_out [cond==1] q.x == X1
+//@ ring_out [cond==1] q.y == Y1
+//@ ring_out [cond==1] q.z == Z1
+//@ ring_out [cond==0] q.x == X2
+//@ ring_out [cond==0] q.y == Y2
+//@ ring_out [cond==0] q.z == Z2
+//@ ring_alias q=p1 | q=p2 | p2=p1
+
+// The two sides of the curve equation compared by Sm2CheckOnCurve (locals at the end of the body).
+//@ func sm2/internal.Sm2CheckOnCurve#ring
+//@ ring_mod 0xfffffffeffffffffffffffffffffffffffffffff00000000ffffffffffffffff
+//@ ring_const sm2B = B
+//@ ring_in x = X, y = Y
+//@ ring_out x3 == X*X*X - 3*X + B
+//@ ring_out y2 == Y*Y
+//@ ring_out x == X
+//@ ring_out y == Y
